@@ -14,7 +14,7 @@ PROPERTY = "C05"
 LEVEL = "model_checking"
 ASSUMPTIONS = ["DC3: a variable without runtime value inside a list literal is null or makes the value invalid",
                "ill-typed literals are refused either by validation (whole request) or as a field error: in both cases the resolver must not run"]
-BUDGET_S = {"quick": 120, "thorough": 1800}
+BUDGET_S = {"quick": 600, "thorough": 1800}
 LEVELS = {"quick": 3, "thorough": 3}
 
 ALT_GOOD = {"Int": 0, "Float": 1, "String": "", "Boolean": False, "ID": 7, "Tag": "", "Color": "BLUE",
